@@ -9,6 +9,7 @@ import (
 	"github.com/cosmos/ibc-go/v3/modules/core/exported"
 	"github.com/ethereum/go-ethereum/common"
 
+	teletypes "github.com/teleport-network/teleport/types"
 	"github.com/teleport-network/teleport/x/aggregate/types"
 
 	transfertypes "github.com/cosmos/ibc-go/v3/modules/apps/transfer/types"
@@ -33,14 +34,14 @@ func (k Keeper) OnRecvPacket(
 	if err := transfertypes.ModuleCdc.UnmarshalJSON(packet.GetData(), &data); err != nil {
 		event.Status = types.STATUS_FAILED
 		event.Message = err.Error()
-		_ = ctx.EventManager().EmitTypedEvent(event)
+		_ = teletypes.EmitTypedEvent(ctx, event)
 		return ack
 	}
 	transferAmount, ok := sdk.NewIntFromString(data.Amount)
 	if !ok {
 		event.Status = types.STATUS_FAILED
 		event.Message = "Change data.Amount type to int error"
-		_ = ctx.EventManager().EmitTypedEvent(event)
+		_ = teletypes.EmitTypedEvent(ctx, event)
 		return ack
 	}
 	receiver, _ := sdk.AccAddressFromBech32(data.Receiver)
@@ -50,21 +51,21 @@ func (k Keeper) OnRecvPacket(
 	if len(receiver) != common.AddressLength {
 		event.Status = types.STATUS_FAILED
 		event.Message = "receiver address is not an EVM address, vouchers are left unconverted"
-		_ = ctx.EventManager().EmitTypedEvent(event)
+		_ = teletypes.EmitTypedEvent(ctx, event)
 		return ack
 	}
 	denom, err := types.IBCDenom(packet.GetDestPort(), packet.GetDestChannel(), data.Denom)
 	if err != nil {
 		event.Status = types.STATUS_FAILED
 		event.Message = err.Error()
-		_ = ctx.EventManager().EmitTypedEvent(event)
+		_ = teletypes.EmitTypedEvent(ctx, event)
 		return ack
 	}
 
 	if !k.IsDenomRegistered(ctx, denom) {
 		event.Status = types.STATUS_FAILED
 		event.Message = fmt.Sprintf("denom %s not registered", denom)
-		_ = ctx.EventManager().EmitTypedEvent(event)
+		_ = teletypes.EmitTypedEvent(ctx, event)
 		return ack
 	}
 	msg := types.NewMsgConvertCoin(
@@ -78,14 +79,14 @@ func (k Keeper) OnRecvPacket(
 	if err != nil {
 		event.Status = types.STATUS_FAILED
 		event.Message = err.Error()
-		_ = ctx.EventManager().EmitTypedEvent(event)
+		_ = teletypes.EmitTypedEvent(ctx, event)
 		return ack
 	}
 
 	write()
 	ctx.EventManager().EmitEvents(cctx.EventManager().Events())
 	event.Status = types.STATUS_SUCCESS
-	_ = ctx.EventManager().EmitTypedEvent(event)
+	_ = teletypes.EmitTypedEvent(ctx, event)
 	return ack
 }
 
